@@ -14,6 +14,7 @@ import MosVerif.Lemmas.StartupLemmas
 import MosVerif.Lemmas.CloseSpec
 import MosVerif.Lemmas.ShutdownLemmas
 import MosVerif.Lemmas.TranslatedC18
+import MosVerif.Lemmas.LockOrder
 import MosVerif.Generated.Facts
 namespace MosVerif.C18
 
@@ -469,6 +470,42 @@ theorem pins_cache_and_fasthttp :
     Facts.c18_cacheCtlClose = "{ if c.memory != nil { c.memory.Close() } if c.redis != nil { c.redis.Close() } return nil }" ∧
     Facts.c18_fastHttpConnState = "s.ConnState = fs.trackConnState" ∧
     Facts.c18_fastHttpTrack = "{ s.m.Lock() defer s.m.Unlock() switch state { case fasthttp.StateNew: s.conns[c] = struct{}{} case fasthttp.StateClosed, fasthttp.StateHijacked: delete(s.conns, c) } }" := by
+  (repeat' apply And.intro) <;> rfl
+
+/-! ## the lock protocol of the reusable-connection transport (idle timers against `getIdleConn` and `Close`) -/
+
+/-- ★ `Close`, an exchange picking an idle connection (`getIdleConn`, which looks at the idle connections one after
+    the other with `t.m` held), the idle timers of those connections and an exchange that returns its connection
+    never dead-lock — for EVERY interleaving, schedules of every length: after any schedule either all of them
+    have returned or one of them can take its next step (so `Close` returns, and no exchange waits for a mutex
+    beyond its context). -/
+theorem reuse_locks_never_deadlock (sched : List Nat) :
+    LockOrder.stuck false (LockOrder.run false sched LockOrder.init) = false :=
+  LockOrder.code_never_stuck sched
+
+/-- non-vacuity: the goroutines of that model do all run to completion under a fair schedule -/
+theorem reuse_locks_round_robin_finishes :
+    LockOrder.finished false (LockOrder.run false LockOrder.roundRobin LockOrder.init) = true :=
+  LockOrder.round_robin_finishes
+
+/-- ★ what it rests on is the order `t.m` before `c.m`: an idle timer that calls back into the transport while it
+    holds `c.m` can block `getIdleConn` for ever — and with it `Close` (thread 3), which then never returns. -/
+theorem reuse_nested_idle_timer_can_deadlock :
+    ∃ sched, LockOrder.stuck true (LockOrder.run true sched LockOrder.init) = true ∧
+      LockOrder.enabled true (LockOrder.run true sched LockOrder.init) 3 = false ∧
+      LockOrder.finished true (LockOrder.run true sched LockOrder.init) = false :=
+  LockOrder.nested_timer_can_deadlock
+
+/-- The lock sequences of that model, in the source: `closeIfIdle` takes `c.m` and nothing else; `exitIdle` and
+    `enterIdle` take `c.m` only; `getIdleConn` calls `exitIdle` with `t.m` held; `releaseConn` has left `c.m`
+    (`enterIdle` / `close` have returned) before it takes `t.m`, and calls `rc.close()` after `t.m.Unlock()`;
+    `Close` (`c18_reuseClose`, pinned above) takes `t.m` and closes the net.Conns directly. -/
+theorem pins_lock_order :
+    Facts.c18_lockCloseIfIdle = "{ c.m.Lock() serving := c.serving if !serving { c.closed = true defer c.c.Close() } c.m.Unlock() }" ∧
+    Facts.c18_lockEnterIdle = "{ c.m.Lock() defer c.m.Unlock() if !c.serving { panic(\"call enterIdle on a idle connection\") } c.serving = false c.idleTimer.Reset(c.idleTimeout) }" ∧
+    Facts.c18_lockExitIdle = "{ c.m.Lock() defer c.m.Unlock() if c.closed { return true } if c.serving { panic(\"call exitIdle on a busy connection\") } c.serving = true c.idleTimer.Stop() err := c.c.SetReadDeadline(time.Time{}) return err != nil }" ∧
+    Facts.c18_lockGetIdleConn = "{ t.m.Lock() defer t.m.Unlock() if t.closed { return nil, ErrClosedTransport } for c := range t.idleConns { delete(t.idleConns, c) if closed := c.exitIdle(); closed { delete(t.conns, c) continue } return c, nil } return nil, nil }" ∧
+    Facts.c18_lockReleaseConn = "{ if err != nil { debugLogTransportConnClosed(rc.c, t.logger, err) rc.close() } else { rc.enterIdle() } t.m.Lock() if t.closed { t.m.Unlock() if err == nil { rc.close() } return } if err != nil { delete(t.conns, rc) } else { t.idleConns[rc] = struct{}{} } t.m.Unlock() }" := by
   (repeat' apply And.intro) <;> rfl
 
 end MosVerif.C18
